@@ -1,0 +1,24 @@
+//go:build verif
+
+package opcua
+
+import "sync/atomic"
+
+// verifHook is installed by the verification harness. Verification builds only.
+var verifHook atomic.Value // of func(point string)
+
+// VerifSetHook installs f to be called at every named scheduling point of
+// this package (nil removes it). f may record the event and may delay the
+// calling goroutine; it must not call back into the client.
+func VerifSetHook(f func(point string)) {
+	if f == nil {
+		f = func(string) {}
+	}
+	verifHook.Store(f)
+}
+
+func verifPoint(point string) {
+	if f, ok := verifHook.Load().(func(string)); ok {
+		f(point)
+	}
+}
